@@ -38,6 +38,7 @@ type Ctx struct {
 	sch            *sched   // the C17 scheduler while its concurrent phase runs
 	amb            *sched   // ambient scheduler: exists while goroutines started by the package are alive outside a C17 run
 	goPanics       []string // panics that ended a goroutine started by the package
+	quiet          bool     // the harness repeats a call a run-dependent number of times (gob's map walk): no steps, no scheduling, no events
 	raceMsg        string   // first data race the detector found among the package's goroutines (ambient scheduler)
 	deadlocked     bool     // the scheduler declared a deadlock during the guarded call in progress
 	childStepLimit bool     // such a goroutine hit the step bound or gave up in a declared deadlock
@@ -69,6 +70,9 @@ func (c *Ctx) Event(format string, a ...interface{}) {
 		return
 	}
 	// hashing the formatted string keeps render and non-render runs comparable
+	if debugEvents {
+		fmt.Fprintf(os.Stderr, "EV %s\n", clip(fmt.Sprintf(format, a...), 200))
+	}
 	c.ev = c.ev.Str(fmt.Sprintf(format, a...))
 }
 
@@ -129,6 +133,8 @@ func (c *Ctx) KnownHit(key, what string) bool {
 
 var curCtx *Ctx
 
+var debugEvents = os.Getenv("VERIF_DEBUG_EVENTS") != ""
+
 // Goroutines started by the instrumented package are cooperative tasks (verifsim.Go, sched.spawn):
 // one runs at a time and the seeded policy decides who.  Only when the package ALSO blocks in a
 // way the scheduler does not model (select, sync.Cond, timers) do its goroutines have to be real:
@@ -159,6 +165,9 @@ func installHooks(c *Ctx) {
 	curCtx = c
 	verifsim.H = &verifsim.Hooks{
 		Yield: func(site int) {
+			if c.quiet {
+				return
+			}
 			simEnter()
 			defer simLeave()
 			c.Steps++
